@@ -9,6 +9,7 @@ let rec shape_of_tokens (t : string list) : nerr =
   | "S" :: r -> ESys (shape_of_tokens r)
   | "U" :: r -> EUrl (shape_of_tokens r)
   | "W" :: r -> EWrap (shape_of_tokens r)
+  | "N" :: r -> EUnder (shape_of_tokens r)
   | _ :: r -> shape_of_tokens r
 
 (* the specification's tag (what the property text says), written without autotag_go *)
@@ -93,11 +94,14 @@ let predict_http gun fault status en depth nto tag path obs =
 
 let colon_split s = String.split_on_char ':' s
 let hstep_of kind =
-  if starts "s" kind && kind <> "stall" then HStepOk (n_of_string (after_prefix "s" kind)) else HStepFail
+  if starts "s" kind && kind <> "stall" then HStepOk (n_of_string (after_prefix "s" kind))
+  else if starts "q" kind then HStepOk (n_of_string (after_prefix "q" kind))   (* completed, with succeeding processors *)
+  else HStepFail
 let gstep_of kind =
   if kind = "pre" then GSPre else if kind = "tmpl" then GSTmpl else if kind = "badcall" then GSBadCall
   else if kind = "badpayload" then GSBadPayload
   else if starts "post" kind then GSCalled (n_of_string (after_prefix "post" kind), true)
+  else if starts "qt" kind then GSCalled (n_of_string (after_prefix "qt" kind), false)
   else GSCalled (n_of_string (after_prefix "st" kind), false)
 (* step = <label>:<kind>[:<other>]: the label is the field the gun builds the sample tag from (HTTP: the
    request's name, gRPC: the call's tag), <other> the other declared field (HTTP: the request's tag,
@@ -115,11 +119,11 @@ let decl_steps_of ~(http : bool) f field =
 
 (* ---- scenario-file cases and runs through the phout queue (harness/cmd/hC10/run.go) ---- *)
 
-let predict_scfile k decls scens obs =
+let predict_scfile fmt k decls scens obs =
   let k = int_of_string k in
-  let reg = List.map (fun d -> match colon_split d with
-                        | [nm; tg; kind] -> ({ sd_name = bytes_of_hex nm; sd_tag = bytes_of_hex tg }, hstep_of kind)
-                        | _ -> failwith ("bad declaration " ^ d)) (String.split_on_char ',' decls) in
+  let decl_of f d = (match colon_split d with
+                     | [nm; tg; kind] -> ({ sd_name = bytes_of_hex nm; sd_tag = bytes_of_hex tg }, f kind)
+                     | _ -> failwith ("bad declaration " ^ d)) in
   let item it =
     if it = "sl" then SISleep else
     let (nm, cnt) = cut '*' it in
@@ -127,16 +131,23 @@ let predict_scfile k decls scens obs =
     SIReq (bytes_of_hex nm, nat_of_int cnt) in
   let scs = List.map (fun sc -> let (nm, items) = cut '=' sc in
                        (bytes_of_hex nm, List.map item (String.split_on_char ',' items))) (String.split_on_char ';' scens) in
-  let traces = List.map (fun (nm, items) -> hscen_file_ev nm reg items) scs in
-  if List.exists (fun t -> t = None) traces then
+  (* code-shaped side (the trace of the shot of what the provider delivers), specification side *)
+  let (file_ev, file_spec) =
+    if starts "g" fmt then
+      let reg = List.map (decl_of gstep_of) (String.split_on_char ',' decls) in
+      ((fun (nm, items) -> gscen_file_ev nm reg items), (fun (nm, items) -> gscen_file_spec nm reg items))
+    else
+      let reg = List.map (decl_of hstep_of) (String.split_on_char ',' decls) in
+      ((fun (nm, items) -> hscen_file_ev nm reg items), (fun (nm, items) -> hscen_file_spec nm reg items)) in
+  if List.exists (fun sc -> file_ev sc = None) scs then
     (* the provider refuses a file one of whose scenarios names an undeclared request or starts with a sleep *)
     ("providererr", verdict (obs = "providererr") "expected the provider to refuse the file", false)
   else begin
     let n = List.length scs in
     let acquired = List.init k (fun i -> List.nth scs (i mod n)) in
-    let trs = List.map (fun (nm, items) -> match hscen_file_ev nm reg items with Some t -> t | None -> []) acquired in
+    let trs = List.map (fun sc -> match file_ev sc with Some t -> t | None -> []) acquired in
     let pred = s_samples_late (List.concat_map at_report trs) (List.fold_left (fun a t -> a + int_of_nat (late_writes t)) 0 trs) in
-    let spec = List.concat_map (fun (nm, items) -> hscen_file_spec nm reg items) acquired in
+    let spec = List.concat_map file_spec acquired in
     let want = s_samples spec in
     (pred, verdict (obs = want) ("expected " ^ want), List.length spec >= 2)
   end
@@ -387,17 +398,18 @@ let predict (c : string) (obs : string) : string * string * bool =
       let pred = line (List.concat_map (fun (m, _) -> List.map codes m) reqs) in
       let want = line (List.map (fun (_, s) -> codes s) reqs) in
       (pred, verdict (obs = want) "a written phout line does not carry the codes of its own request", true)
-  | ["hscen"; name; steps] ->
+  | ["hscen"; name; steps] | ["hscen"; name; steps; _] ->
+      (* the optional last field: tracing, dumps, answer log, log level, request bodies, waiting times - no effect on samples *)
       let st = decl_steps_of ~http:true hstep_of steps and nm = bytes_of_hex name in
       let want = s_samples (hscen_decl_spec nm st) in
       (s_trace (hscen_ev_decl nm st), verdict (obs = want) ("expected " ^ want), List.length st > 1)
-  | ["gscen"; name; steps] ->
+  | ["gscen"; name; steps] | ["gscen"; name; steps; _] ->
       let st = decl_steps_of ~http:false gstep_of steps and nm = bytes_of_hex name in
       let want = s_samples (gscen_decl_spec nm st) in
       (s_trace (gscen_ev_decl nm st), verdict (obs = want) ("expected " ^ want), List.length st > 1)
-  | ["scfile"; _; k; decls; scens] -> predict_scfile k decls scens obs
+  | ["scfile"; fmt; k; decls; scens] -> predict_scfile fmt k decls scens obs
   | ["phoutq"; cap; kinds; per] -> predict_phoutq cap kinds per obs
-  | ["gshoot"; tag; kind] ->
+  | ["gshoot"; tag; kind] | ["gshoot"; tag; kind; _] ->
       let call = (if kind = "unknown" then GUnknown else if kind = "badpayload" then GBadPayload
                   else GCalled (n_of_string (after_prefix "st" kind))) in
       let tg = bytes_of_hex tag in
